@@ -4,12 +4,18 @@ CONSTANTS
   MaxItems = 3
   PairItems = 2
   OptItems = 2
+  Wide = TRUE
   Emit = TRUE
 INVARIANT ParseRefinesRef
 INVARIANT DumpRefinesRef
 INVARIANT DeviationExact
 INVARIANT ReparseRefinesRef
 INVARIANT SaveRefinesRef
+INVARIANT HistRefinesRef
+INVARIANT SkipDefaultRefinesRef
+INVARIANT ApDeviationExact
+INVARIANT SubEnvDeviationExact
+INVARIANT DcfDeviationExact
 INVARIANT NoneIsAValue
 INVARIANT TargetsFunctionOfSources
 INVARIANT CreationRefinesRef
